@@ -715,3 +715,20 @@ mod tests {
         run_sponge_test::<midnight_curves::Fq>("blstrs", true);
     }
 }
+
+/// verif-hooks H10: public entry to the (otherwise `pub(super)`) in-circuit permutation, so that an
+/// out-of-tree harness can run it on `WIDTH` freely assigned state cells and expose all `WIDTH`
+/// outputs. Forwards to [`PoseidonChip::permutation`]; adds no constraint of its own.
+#[cfg(feature = "verif-hooks")]
+impl<F: PoseidonField> PoseidonChip<F> {
+    /// Applies the Poseidon permutation to `inputs` (length `WIDTH`, panics otherwise).
+    pub fn verif_permutation(
+        &self,
+        layouter: &mut impl Layouter<F>,
+        inputs: &[AssignedNative<F>],
+    ) -> Result<Vec<AssignedNative<F>>, Error> {
+        let inputs: AssignedRegister<F> =
+            inputs.to_vec().try_into().expect("verif_permutation: WIDTH inputs");
+        self.permutation(layouter, &inputs).map(|out| out.to_vec())
+    }
+}
